@@ -10,7 +10,7 @@ import numpy as np
 from .. import models
 from ..core import RunResult, adigest, mix
 from ..driver import pristine_library_state
-from .hist_common import SAME, TAU, quiet
+from .hist_common import SAME, TAU, clone, quiet
 from .hist_common import call_value as _call_value
 
 NAME = "B8"
@@ -147,11 +147,16 @@ def run(cs, tier, run_index):
             return big[::2, ::2]
         return a.copy()
 
+    reps_arg = reps
+    if cfg.draw(3) == 0:
+        reps_arg = np.int64(reps)  # what `for r in np.arange(1, 4)` hands over
+        meta["reps_type"] = "np.int64"
+        res.probe("numpy_integer_reps")
     current = {"prob": prob, "pred": pred}  # the game the object holds now (changes when the caller changes the game)
 
     def build():
         p, f = contain(current["prob"], forms[0]), contain(current["pred"], forms[1])
-        return (X.XORGame(p, f, reps, tol_value) if tol_given else X.XORGame(p, f, reps)), (p, f)
+        return (X.XORGame(p, f, reps_arg, tol_value) if tol_given else X.XORGame(p, f, reps_arg)), (p, f)
 
     try:
         game, caller = build()
@@ -162,6 +167,7 @@ def run(cs, tier, run_index):
     # cast what it is given); the caller's arrays are compared with copies taken before construction
     shadow = [np.array(game.prob_mat, copy=True), np.array(game.pred_mat, copy=True)]
     caller_shadow = [prob.copy(), pred.copy()]
+    holder = {"game": game}  # the object the caller currently uses (may be replaced by a copy of itself)
     interloper = None
     if cfg.draw(3) == 2 or run_index % 8 == 7:
         p2, f2, _, _ = draw_game(cs.s("game:2"), like=meta)
@@ -225,7 +231,7 @@ def run(cs, tier, run_index):
                 # the caller converts the game, checks the result, and then uses the returned object as its own:
                 # scribbling on it must not reach the XOR game (or any later conversion)
                 try:
-                    conv = game.to_nonlocal_game()
+                    conv = holder["game"].to_nonlocal_game()
                     cp, cv = np.asarray(conv.prob_mat), np.asarray(conv.pred_mat)
                 except Exception as e:
                     res.violate("C08.val.same_as_game", why="to_nonlocal_game raised", exc=type(e).__name__, msg=str(e)[:200], position=k, history=names[:k + 1], **meta)
@@ -253,10 +259,20 @@ def run(cs, tier, run_index):
                 continue
             if interloper is not None and ops_s.draw(2):
                 call_value(op_fn(interloper, nm), res, nm + "(other object)")
-            out = call_value(op_fn(game, nm), res, nm)
+            if ops_s.draw(8) == 0:
+                # the caller continues with a deep copy / pickle round trip of the object (a copy must be the same game;
+                # a shallow copy is not used here: it would share the arrays the caller-edit step writes to)
+                how_c = ops_s.draw(2)
+                try:
+                    holder["game"] = clone(holder["game"], how_c)
+                except Exception as e:
+                    res.violate("C08.op.raises", op=["deepcopy", "pickle"][how_c], exc=type(e).__name__, msg=str(e)[:200], position=k, **meta)
+                    break
+                res.probe("object_cloned")
+            out = call_value(op_fn(holder["game"], nm), res, nm)
             res.log.add("op", k, nm, out[1] if out[0] == "ok" else out[:2])
             res.checks_sim += 1
-            if not (_same(game.prob_mat, shadow[0]) and _same(game.pred_mat, shadow[1]) and _same(caller[0], caller_shadow[0]) and _same(caller[1], caller_shadow[1]) and game.reps == reps):
+            if not (_same(holder["game"].prob_mat, shadow[0]) and _same(holder["game"].pred_mat, shadow[1]) and _same(caller[0], caller_shadow[0]) and _same(caller[1], caller_shadow[1]) and holder["game"].reps == reps):
                 res.violate("C08.hist.order", why="XOR game object or caller arrays changed", after=nm, position=k, history=names[:k + 1], **meta)
                 break
             if out[0] != "ok":
@@ -340,15 +356,15 @@ def run(cs, tier, run_index):
             elif how == 1:
                 caller[1][...] = new_f
             else:
-                game.prob_mat = new_p.copy()
-                game.pred_mat = new_f.copy()
+                holder["game"].prob_mat = new_p.copy()
+                holder["game"].pred_mat = new_f.copy()
         except (ValueError, TypeError):
             how = -1
         if how >= 0:
             res.probe("caller_changes_the_game")
-            cur_p = np.array(np.asarray(game.prob_mat), dtype=float)
-            cur_f = np.array(np.asarray(game.pred_mat))
-            shadow = [np.array(game.prob_mat, copy=True), np.array(game.pred_mat, copy=True)]
+            cur_p = np.array(np.asarray(holder["game"].prob_mat), dtype=float)
+            cur_f = np.array(np.asarray(holder["game"].pred_mat))
+            shadow = [np.array(holder["game"].prob_mat, copy=True), np.array(holder["game"].pred_mat, copy=True)]
             caller_shadow = [np.array(np.asarray(caller[0]), copy=True), np.array(np.asarray(caller[1]), copy=True)]
             current["prob"], current["pred"] = cur_p, cur_f
             names2 = []
